@@ -260,6 +260,10 @@ func genNesting(r *rand.Rand, i int) J {
 					for m := r.Intn(4); m > 0; m-- {
 						out = append(out, pick(r, []string{"text", "obj", "if", "endif", "else", "tag", "for", "endcase", "when", "badobj", "badobj"}))
 					}
+					if b == "comment" && r.Intn(3) == 0 {
+						// the end tag of a block this engine does not have (other Liquids do): inside a comment, text like the rest
+						out = append(out, "otherend")
+					}
 				} else {
 					out = append(out, build(depth-1)...)
 					adm := map[string][]string{"if": {"elsif", "else"}, "unless": {"else"}, "case": {"when", "else"}, "for": {"else"}}[b]
